@@ -250,7 +250,21 @@ def run_history(case):
                 pd["greens"] = j_green(pd["walkers"])
             cnt["qr_events"] += 1
         if (step + 1) % case["sr_every"] == 0 and float(jnp.sum(pd["weights"])) > 0:
+            w_before = np.asarray(pd["weights"]).copy()
+            wl_before = afqmc.np_walkers(pd["walkers"])
+            first_before = wl_before[0] if isinstance(wl_before, list) else wl_before
             pd = prop.stochastic_reconfiguration_local(pd)
+            # a reconfiguration may only copy LIVE walkers (a dead walker's determinant is garbage) and shares the weight equally
+            wl_after = afqmc.np_walkers(pd["walkers"])
+            first_after = wl_after[0] if isinstance(wl_after, list) else wl_after
+            live_src = [first_before[i] for i in range(nw) if w_before[i] > 0]
+            for k in range(nw):
+                if not any(np.array_equal(first_after[k], a_) for a_ in live_src):
+                    mon._fail("reconfiguration-copies-live-walkers-only", step=step, slot=k, n_dead=int(np.sum(w_before == 0)))
+                    break
+            w_after = np.asarray(pd["weights"])
+            if np.all(np.isfinite(w_after)) and not (np.allclose(w_after, w_after[0], rtol=1e-12, atol=0) and abs(w_after.sum() - w_before.sum()) <= 1e-10 * w_before.sum()):
+                mon._fail("reconfiguration-shares-the-total-weight-equally", step=step, total_before=float(w_before.sum()), total_after=float(w_after.sum()))
             pd["overlaps"] = j_ovlp(pd["walkers"])
             if "greens" in pd:
                 pd["greens"] = j_green(pd["walkers"])
